@@ -1528,15 +1528,7 @@ def translate_imp(repo, ns, rel, only):
         if it[0] == "fn" and it[1] in only:
             out.append(ImpGen(consts).function(ns, it))
     out.append("end OZ.Gen")
-    # the unit enums the generated code mentions, declared once, before everything else
-    text = "\n".join(out)
-    decls = []
-    for en, vs in enums.items():
-        if re.search(r"\b" + re.escape(en) + r"\b", text):
-            decls.append(f"inductive {en} where\n" + "\n".join(f"  | {v_}" for v_ in vs) + "\n  deriving DecidableEq, Repr\n")
-    if decls:
-        text = text.replace("open OZ.Rs\n", "open OZ.Rs\n\n" + "\n".join(decls), 1)
-    return text + "\n"
+    return "\n".join(out) + "\n"
 
 
 def main():
